@@ -16,8 +16,11 @@ export GOFLAGS=-mod=mod GOPROXY=off GOSUMDB=off GOTOOLCHAIN=local
 if ! go build ./... 2>/tmp/mut/build.err; then echo "MUTANT-DOES-NOT-BUILD"; cat /tmp/mut/build.err | head; git checkout -- . ; exit 4; fi
 cd /verif
 for p in "$@"; do
+  # the evidence file describes the unchanged tree: keep it
+  [ -f evidence/$p.json ] && cp evidence/$p.json /tmp/mut/evidence-$p.keep
   out=$(./check $p $tier 2>&1)
   rc=$?
+  [ -f /tmp/mut/evidence-$p.keep ] && mv /tmp/mut/evidence-$p.keep evidence/$p.json
   echo "== $p rc=$rc"
   echo "$out" | grep -E "VIOLATION|signature:|detail:|KNOWN-FINDING|INCONCLUSIVE|evaluations|observed" | cut -c1-400 | head -12
   echo "$out" | grep -q "evaluations" || echo "$out" | tail -5
